@@ -13,6 +13,7 @@ SPECS = [("em", 1, "halo", {"amplitude_z": 0.2, "zenith": "southern"}, "Z", [0.0
          ("em", 1, "lyapunov", {"amplitude_x": 0.05}, "X", [0.002, 0.001, 0.004]),
          ("em", 2, "halo", {"amplitude_z": 0.15, "zenith": "northern"}, "Z", [0.008, 0.004, 0.015]),
          ("se", 1, "halo", {"amplitude_z": 0.1, "zenith": "northern"}, "Z", [0.0005, 0.001])]
+SECOND = {"halo": "X", "lyapunov": "VY"}
 
 
 def warmup(tier):
@@ -53,7 +54,14 @@ def execute(ctx: RunCtx) -> None:
     boxk = ds.pick([1000.0, 2.5, 1.5], "e2e.target_halfwidth_in_steps")
     tol = ds.pick([1e-10, 1e-8], "e2e.tol")
     pfail = ds.pick([0.0, 0.25, 0.5, 0.8], "e2e.fault_rate")
+    # continuation state: the family's own parameter alone, or together with a second component listed after / before it
+    # (a sequence of components is part of the documented configuration; the listed order is the order of step and target)
+    second = SECOND[fam]
+    comps = ds.pick([(st,), (st, second), (second, st)], "e2e.state_components")
+    frac2 = ds.pick([0.5, -0.25, 0.1], "e2e.second_step_fraction") if len(comps) > 1 else 0.0
     cfgd = {"spec": f"{s}-L{p}-{fam}", "stepper": stepper, "step": sign * mag, "M": M, "R": R, "boxk": boxk, "tol": tol, "pfail": pfail}
+    if len(comps) > 1:
+        cfgd["state"], cfgd["second_step"] = list(comps), frac2 * mag
     cfgd_late = cfgd
     log.add("cfg", {k: (fhex(v) if isinstance(v, float) else v) for k, v in cfgd.items()})
     system = E["sys"][s]
@@ -66,15 +74,21 @@ def execute(ctx: RunCtx) -> None:
         seed.period = T_seed
     prior_generate = ds.flag("e2e.prior_generate_with_other_options", 0.2)
     idx = int(getattr(SynodicState, st).value)
-    seed.continuation_config = OrbitContinuationConfig(state=getattr(SynodicState, st), stepper=stepper)
-    step0 = np.array([sign * mag])
+    idxs = [int(getattr(SynodicState, c).value) for c in comps]
+    state_arg = getattr(SynodicState, st) if len(comps) == 1 else tuple(getattr(SynodicState, c) for c in comps)
+    seed.continuation_config = OrbitContinuationConfig(state=state_arg, stepper=stepper)
+    steps_l = [sign * mag if c == st else frac2 * mag for c in comps]
+    step0 = np.array(steps_l)
     prm0 = x_seed[idx]
     half = boxk * mag
+    # the second component is moved by the corrector itself: its interval is wide unless the box is the loose one anyway
+    tmin_l = [x_seed[i] - (half if c == st else 1000.0 * mag) for c, i in zip(comps, idxs)]
+    tmax_l = [x_seed[i] + (half if c == st else 1000.0 * mag) for c, i in zip(comps, idxs)]
     from hiten.algorithms.corrector.options import OrbitCorrectionOptions
     extra = seed.correction_options.merge(**{"base.convergence.tol": tol})
-    opts = OrbitContinuationOptions(target=([prm0 - half], [prm0 + half]), step=(sign * mag,), max_members=M, max_retries_per_step=R,
+    opts = OrbitContinuationOptions(target=(tmin_l, tmax_l), step=tuple(steps_l), max_members=M, max_retries_per_step=R,
                                     step_min=1e-10, step_max=1.0, extra_params=extra)
-    model = ContinuationModel(seed=x_seed, idx=[idx], step0=step0, target_min=[prm0 - half], target_max=[prm0 + half], max_members=M,
+    model = ContinuationModel(seed=x_seed, idx=idxs, step0=step0, target_min=tmin_l, target_max=tmax_l, max_members=M,
                               max_retries=R, step_min=1e-10, step_max=1.0, stepper=stepper, shrink=None)
     state = {"pending": None, "records": [], "outcomes": ""}
     real_correct = PeriodicOrbit.correct
@@ -125,7 +139,8 @@ def execute(ctx: RunCtx) -> None:
     if prior_generate:
         # the seed object already produced another family (other limits): this one must not inherit anything from it
         try:
-            seed.generate(OrbitContinuationOptions(target=([prm0 - 1000 * mag], [prm0 + 1000 * mag]), step=(-sign * mag,), max_members=2,
+            seed.generate(OrbitContinuationOptions(target=([x_seed[i] - 1000 * mag for i in idxs], [x_seed[i] + 1000 * mag for i in idxs]),
+                                                   step=tuple(-v for v in steps_l), max_members=2,
                                                    max_retries_per_step=0, step_min=1e-10, step_max=1.0, extra_params=extra))
             ctx.probe("prior_generate")
         except Exception:
@@ -166,14 +181,14 @@ def execute(ctx: RunCtx) -> None:
         raise Violation("C13/I6-rejected-count", f"{what}: rejected_count={result.rejected_count}, failed corrections={model.rejected}")
     if int(result.iterations) != model.calls:
         raise Violation("C13/I6-iterations", f"{what}: iterations={result.iterations}, corrector calls={model.calls}")
-    tmin, tmax = prm0 - half, prm0 + half
+    tmin, tmax = np.array(tmin_l), np.array(tmax_l)
     for i, (o, xm) in enumerate(zip(fam_objs, model.family)):
         x = np.array(o.initial_state, float)
         if not np.array_equal(x, xm):
             raise Violation("C13/I8-family-content", f"{what}: member {i} has initial_state {x.tolist()}, its accepted correction gave {xm.tolist()}")
-        if not np.array_equal(np.asarray(result.parameter_values[i], float).ravel(), x[[idx]]):
-            raise Violation("C13/I6-parameter-values", f"{what}: parameter_values[{i}]={np.asarray(result.parameter_values[i]).tolist()} != member's {st}={x[idx]}")
-        if i < len(fam_objs) - 1 and not (tmin <= x[idx] <= tmax):
+        if not np.array_equal(np.asarray(result.parameter_values[i], float).ravel(), x[idxs]):
+            raise Violation("C13/I6-parameter-values", f"{what}: parameter_values[{i}]={np.asarray(result.parameter_values[i]).tolist()} != member's {list(comps)}={x[idxs].tolist()}")
+        if i < len(fam_objs) - 1 and not (np.all(tmin <= x[idxs]) and np.all(x[idxs] <= tmax)):
             raise Violation("C13/I3-target-stop", f"{what}: member {i} of {len(fam_objs)} is outside the target interval but is not the last")
         if i >= 1:
             rec = state["records"][i - 1]
